@@ -301,7 +301,8 @@ Apply(S, c, cmd) ==
                     \* the emulator parses the arguments when it queues: what Redis would queue and fail at EXEC
                     \* time (bad option, not an integer) is refused at once and not queued
                     ELSE IF On("D_MULTI_REJECTS_UNPARSABLE_ARGS_AT_QUEUE_TIME") /\ IsParseErr(Run(S, c, cmd).r)
-                         THEN SDev(S, RErr("ERR"), "D_MULTI_REJECTS_UNPARSABLE_ARGS_AT_QUEUE_TIME")
+                         THEN SDev(IF On("D_EXEC_RUNS_AFTER_QUEUE_ERROR") THEN S ELSE [S EXCEPT !.conn[c].multi = "dirty"], RErr("ERR"),
+                                   "D_MULTI_REJECTS_UNPARSABLE_ARGS_AT_QUEUE_TIME")
                     ELSE SOk([S EXCEPT !.conn[c].queue = Append(@, cmd)], RSimple("QUEUED"))
     IN  [res EXCEPT !.S = FlagW(S, res.S, nm, IF ss.multi = "off" THEN Rewrites(S, res.S, c, cmd, res.r) ELSE {})]
 
